@@ -11,12 +11,17 @@
    appended verbatim; C09_unknown_untouched_step: every other occurrence leaves the section alone)
    and for a run of rejected fields anywhere in the input (C09_unknown_preserved_run: appended in
    input order, decoding continues after it); unknown_reemitted; discard_unknown.
-   schema_evolution: the positive statement (decode S (encode S' (decode S' (encode S m))) = m for
-   every valid m and S' = S minus fields) is NOT proved (it needs the wire-scanner completeness
-   theorem for encoder output, under two schemas); it is checked on the implementation and
-   against the model on every run (harness op `evo`), computed on the C03 example
-   (C09_schema_evolution_example), and its necessity of the hypothesis "an encoding of a message"
-   is shown by C09_schema_evolution_arbitrary_bytes_refuted. *)
+   schema_evolution: decode S (encode S' (decode S' (encode S m))) = m, identity of canonical values, for
+   S' = S with an arbitrary set of fields deleted in every message type ([msg_restrict keep S]), is
+   proved for every valid m whose populated fields are of scalar kind ([msg_flat]: all 16 scalar kinds,
+   explicit/implicit/required presence, packed and expanded lists, maps with scalar values, oneofs
+   of scalars, extensions, unknown fields): C09_schema_evolution_partial.  MISSING for the general
+   statement: populated message-/group-typed fields and maps with message values -- their encodings
+   (full schema) are decoded by the reduced schema one level down, which needs the same induction with
+   two schemas at every depth (and, for deleted group fields, the wire-scanner completeness for
+   encoder output); for those it is checked on the implementation and against the model on every run
+   (harness op `evo`) and computed on the C03 example (C09_schema_evolution_example).  The hypothesis
+   "an encoding of a message" is necessary: C09_schema_evolution_arbitrary_bytes_refuted. *)
 From Coq Require Import List NArith ZArith.
 From PB Require Import Base.PBytes Wire.WireModel.
 From PB Require Import Msg.MsgSchema Msg.MsgValue Msg.MsgEnc Msg.MsgDec Msg.MsgValid Msg.MsgRoundP Msg.MsgExample
@@ -69,6 +74,21 @@ Theorem C09_discard_unknown :
     msg_decode_discard slow S limit tid bs = DOk v -> msg_has_unknown v = false.
 Proof. exact msg_discard_unknown. Qed.
 Print Assumptions C09_discard_unknown.
+
+(* [m] must be canonical for the path that decodes with the full schema ([slow]) and for the
+   reflection path, which decodes with the reduced schema (dynamicpb of the reduced descriptor) *)
+Theorem C09_schema_evolution_partial :
+  forall (slow : bool) (S : schema) (keep : nat -> N -> bool) (limit : nat) (fs : fields) (unk : list byte),
+    msg_valid slow S limit O (VMsg fs unk) = true ->
+    msg_valid true S limit O (VMsg fs unk) = true ->
+    msg_flat (nth O S []) fs = true ->
+    msg_evolve slow S (msg_restrict keep S) limit (msg_encode S O (VMsg fs unk)) = DOk (VMsg fs unk).
+Proof. exact msg_schema_evolution_flat. Qed.
+Print Assumptions C09_schema_evolution_partial.
+Example C09_schema_evolution_partial_nonvacuous :
+  msg_valid false ex_schema 3 O (VMsg ex_flat_fs []) = true /\ msg_valid true ex_schema 3 O (VMsg ex_flat_fs []) = true /\
+  msg_flat (nth O ex_schema []) ex_flat_fs = true.
+Proof. exact ex_flat_ok. Qed.
 
 Theorem C09_schema_evolution_arbitrary_bytes_refuted :
   exists S keep bs v v',
